@@ -37,7 +37,7 @@ try:
         for f in fs: files.append(os.path.join(root, f))
     report["demo_files"] = [os.path.relpath(f, demo) for f in files]
     import re
-    cands = [t.rstrip(".,;:)") for t in re.findall(r"[\w./-]+", placement) if "/" in t and not t.startswith("demo") and not t.startswith("/tmp") and not t.startswith("./demo")]
+    cands = [t.rstrip(".,;:)") for t in re.findall(r"[\w./-]+", placement) if ("/" in t or os.path.isdir(os.path.join(wt, t))) and not t.startswith("demo") and not t.startswith("/tmp") and not t.startswith("./demo")]
     target = cands[-1].lstrip("./") if cands else ""
     manual = {}
     if "--place" in sys.argv:
